@@ -242,4 +242,21 @@ theorem specBase_isBase {n : Bytes} {c : Cat} (h : specBase n = some c) :
   intro hm
   exact this (n, c) hm
 
+theorem categoryMap_keys :
+    Generated.C05.categoryMap.map Prod.fst = Generated.C05.baseCase ++ Generated.C05.containerCase := by decide
+
+theorem inCategoryMap_iff (n : Bytes) :
+    inCategoryMap n = true ↔ n ∈ Generated.C05.baseCase ∨ isContainerName n = true := by
+  unfold inCategoryMap isContainerName
+  rw [Option.isSome_iff_ne_none, Ne, lookupB_none, categoryMap_keys, List.mem_append]
+  simp only [Classical.not_not, decide_eq_true_eq]
+
+theorem specBase_some_mem {n : Bytes} {c : Cat} (h : specBase n = some c) : n ∈ Generated.C05.baseCase := by
+  rw [← specBase_keys]
+  exact List.mem_map.mpr ⟨(n, c), lookupB_mem n c _ h, rfl⟩
+
+theorem specBase_none_not_mem {n : Bytes} (h : specBase n = none) : n ∉ Generated.C05.baseCase := by
+  rw [← specBase_keys]
+  exact (lookupB_none n _).mp h
+
 end Sem
